@@ -149,3 +149,6 @@ func sortedKeys(m map[string]int) []string {
 	sort.Strings(ks)
 	return ks
 }
+
+func tempDir() string { return os.TempDir() }
+func removeAll(p string) { _ = os.RemoveAll(p) }
